@@ -63,6 +63,7 @@ type pathCtx struct {
 	inputs  []inputVar
 	inputIx map[string]int
 	events  []string
+	decided map[int]bool // conditions already resolved on this path (term id -> value)
 }
 
 type harnessResult struct {
@@ -126,6 +127,18 @@ func decide(c *Term) bool {
 	if p == nil {
 		panic(engineErr("symbolic branch outside a path (package initialisation?)"))
 	}
+	// a condition (or its negation) that was already resolved on this path needs no new decision
+	base, neg := c, false
+	if c.op == opNot {
+		base, neg = c.args[0], true
+	}
+	if v, ok := p.decided[base.id]; ok {
+		return v != neg
+	}
+	remember := func(b bool) bool {
+		p.decided[base.id] = b != neg
+		return b
+	}
 	if p.pos < len(p.prefix) {
 		d := p.prefix[p.pos]
 		p.pos++
@@ -140,18 +153,18 @@ func decide(c *Term) bool {
 				assertPC(mkNot(c))
 			}
 		}
-		return d.B
+		return remember(d.B)
 	}
 	p.pos++
 	rT := solver.Check(c)
 	if rT == resUnsat {
 		recordDecision(decision{Kind: 'f', B: false})
-		return false
+		return remember(false)
 	}
 	rF := solver.Check(mkNot(c))
 	if rF == resUnsat {
 		recordDecision(decision{Kind: 'f', B: true})
-		return true
+		return remember(true)
 	}
 	alt := make([]decision, len(p.trace), len(p.trace)+1)
 	copy(alt, p.trace)
@@ -159,7 +172,7 @@ func decide(c *Term) bool {
 	p.newWork = append(p.newWork, alt)
 	recordDecision(decision{Kind: 'b', B: true})
 	assertPC(c)
-	return true
+	return remember(true)
 }
 
 // concretize picks a concrete value for t, scheduling the other feasible values as alternatives.
@@ -355,8 +368,9 @@ type pathOutcome struct {
 func runPath(i *interpreter, fn value, prefix []decision) (out pathOutcome) {
 	solver.Push()
 	journalOn = true
-	px = &pathCtx{prefix: prefix, inputIx: map[string]int{}}
+	px = &pathCtx{prefix: prefix, inputIx: map[string]int{}, decided: map[int]bool{}}
 	i.spawned = nil
+	i.schedOn, i.schedFrom, i.nextGo = false, 0, 0
 	defer func() {
 		journalOn = false
 		rollback()
@@ -376,6 +390,8 @@ func runPath(i *interpreter, fn value, prefix []decision) (out pathOutcome) {
 				out = pathOutcome{k, r.reason}
 			case targetPanic:
 				out = pathOutcome{"panic", panicString(r)}
+			case goroutinePanic:
+				out = pathOutcome{"panic", "unrecovered " + r.msg}
 			case engineError:
 				out = pathOutcome{"engine", r.msg}
 			default:
